@@ -77,6 +77,70 @@ def leaf_positions(spec: morph.Spec, datum, path=(), out=None, depth=0):
     return out
 
 
+def dict_nodes(spec: morph.Spec, datum, path=(), out=None, depth=0):
+    """(path, dict spec, dict datum) of every non-empty dict node reached through containers (not unions)"""
+    out = out if out is not None else []
+    if depth > 8:
+        return out
+    k = spec.kind
+    if k == "dict" and isinstance(datum, dict):
+        if datum:
+            out.append((path, spec, datum))
+        for key, v in datum.items():
+            dict_nodes(spec.children[1], v, path + (key,), out, depth + 1)
+    elif k.startswith("iter") and isinstance(datum, (list, tuple)) and spec.children:
+        for i, el in enumerate(datum):
+            dict_nodes(spec.children[0], el, path + (i,), out, depth + 1)
+    elif k == "tuple" and isinstance(datum, (list, tuple)) and len(datum) == len(spec.children):
+        for i, (c, el) in enumerate(zip(spec.children, datum)):
+            dict_nodes(c, el, path + (i,), out, depth + 1)
+    elif k == "model" and isinstance(datum, dict) and hasattr(spec, "field_specs"):
+        for fname, fs, _req in spec.field_specs:
+            if fname in datum and (fs.children or not fs.kind.startswith("iter")):
+                dict_nodes(fs, datum[fname], path + (fname,), out, depth + 1)
+    return out
+
+
+def strict_leaf(spec: morph.Spec) -> bool:
+    return spec.kind.startswith("scalar") and spec.kind != "scalar:none"
+
+
+def entry_both_case(ctx: Ctx, eng: morph.Engine, spec, datum):
+    """one dict entry whose KEY and VALUE are both invalid: two independent faults (ItemKey(k) and k)"""
+    from adaptix.load_error import LoadError
+    from adaptix.struct_trail import ItemKey
+    nodes = [(p, ds, dd) for p, ds, dd in dict_nodes(spec, datum) if strict_leaf(ds.children[0]) and strict_leaf(ds.children[1])]
+    if not nodes:
+        return
+    path, dspec, ddatum = ctx.rng.choice(nodes)
+    victim = ctx.rng.choice(list(ddatum))
+    bk, bv = Bad(), Bad()
+    nd = {}
+    for key, v in ddatum.items():
+        if key is victim or key == victim:
+            nd[bk] = bv
+        else:
+            nd[key] = v
+    d2 = replace_at(datum, path, nd)
+    case = {"hint": repr(spec.hint)[:300], "ty": spec.ty, "datum": repr(datum)[:300], "entry": [list(map(repr, path)), repr(victim)],
+            "label": "dict-entry-key-and-value"}
+    ctx.note_case(case, nontrivial=True, kind="planted:entry-both")
+    try:
+        eng.real.loader("ALL", True, spec.hint)(d2)
+    except LoadError as e:
+        rep = reports(e)
+    except Exception:  # noqa: BLE001
+        return
+    else:
+        ctx.fail("planted-not-rejected:ALL", "an entry with invalid key and value was accepted", case)
+        return
+    got = sorted(repr(list(t)) for t, leaf in rep)
+    want = sorted([repr(list(path) + [ItemKey(bk)]), repr(list(path) + [bk])])
+    if got != want:
+        ctx.fail("all-incomplete-or-duplicated:dict-entry", f"ALL reports {got} for a dict entry whose key and value are both invalid "
+                 f"(expected {want}) in {repr(spec.hint)[:100]}", dict(case, got=got))
+
+
 def replace_at(datum, path, value):
     if not path:
         return value
@@ -216,8 +280,27 @@ def renamed_layouts(ctx: Ctx, n: int):
                          f"({len(rep)} reports)", case)
 
 
+def dict_probe_specs(eng):
+    tg = morph.TypeGen(eng.ctx.rng)
+    k, v = tg.scalar("str"), tg.scalar("int")
+
+    def g(r):
+        return {r.choice(["a", "b", "c", "d"]) + str(i): r.randrange(9) for i in range(r.randint(1, 3))}
+    d = morph.Spec(hint=dict[str, int], ty=["dict", k.ty, v.ty], gen=g, kind="dict", children=[k, v], hashable=False)
+    lst = morph.Spec(hint=list[dict[str, int]], ty=["iter", "list", True, d.ty], gen=lambda r: [g(r) for _ in range(2)],
+                     kind="iter:list", children=[d], hashable=False)
+    k2, v2 = tg.scalar("int"), tg.scalar("str")
+    d2 = morph.Spec(hint=dict[int, str], ty=["dict", k2.ty, v2.ty], gen=lambda r: {r.randrange(50): "x" for _ in range(2)},
+                    kind="dict", children=[k2, v2], hashable=False)
+    return [d, lst, d2]
+
+
 def run(ctx: Ctx):
     eng = morph.Engine(ctx)
+    for sp in dict_probe_specs(eng):
+        for _ in range(ctx.budget(8, 100)):
+            x = sp.gen(ctx.rng)
+            entry_both_case(ctx, eng, sp, x)
     specs = eng.gen_specs(ctx.budget(140, 2000), 3 if ctx.tier == "quick" else 4)
     # correspondence of full error trees (all modes)
     recs = eng.load_records(specs, suite="load", n_valid=1, n_corrupt=4, n_hostile=1)
@@ -274,6 +357,8 @@ def run(ctx: Ctx):
             subsets += combos[: (10 if ctx.tier == "quick" else 40)]
         for paths in subsets:
             planted_case(ctx, eng, spec, datum, list(paths), "generated")
+        if not morph.spec_has_union(spec):
+            entry_both_case(ctx, eng, spec, datum)
         if len(ctx.samples) < 4:
             ctx.sample({"hint": repr(spec.hint)[:120], "datum": repr(datum)[:200], "leaf_positions": [list(map(repr, p)) for p in pos[:6]]})
     renamed_layouts(ctx, ctx.budget(60, 1000))
